@@ -209,10 +209,13 @@ func (p *Prog) Func(pkg, recv, name string) *ssa.Function {
 		return nil
 	}
 	nt := t.Type()
-	if m := p.SSA.LookupMethod(nt, sp.Pkg, name); m != nil {
-		return m
+	for _, T := range []types.Type{nt, types.NewPointer(nt)} {
+		ms := p.SSA.MethodSets.MethodSet(T)
+		if sel := ms.Lookup(sp.Pkg, name); sel != nil {
+			return p.SSA.MethodValue(sel)
+		}
 	}
-	return p.SSA.LookupMethod(types.NewPointer(nt), sp.Pkg, name)
+	return nil
 }
 
 func (p *Prog) MustFunc(pkg, recv, name string) *ssa.Function {
